@@ -37,21 +37,21 @@ func init() {
 
 // c20Mut describes how one reply is malformed.
 type c20Mut struct {
-	Base  string `json:"base"`            // "valid" or the substituted reply: status-ok|status-eof|status-fail|handle|data|name1|name2|attrs|extreply|version|type99
-	Kind  string `json:"kind"`            // none | cut | field | rand | badframe
-	N     int    `json:"n,omitempty"`     // cut: payload bytes kept (payload = everything after the type byte; the id is its first 4 bytes)
-	Off   int    `json:"off,omitempty"`   // field: offset of the word within the frame
-	Field string `json:"field,omitempty"` // field: name
-	Val   uint32 `json:"val,omitempty"`   // field: new value
-	Seed  int64  `json:"seed,omitempty"`  // rand
-	Len   int    `json:"len,omitempty"`   // rand: payload bytes after the id
-	Typ   byte   `json:"typ,omitempty"`   // rand: type byte
+	Base  string `json:"base"`             // "valid" or the substituted reply: status-ok|status-eof|status-fail|handle|data|name1|name2|attrs|extreply|version|type99
+	Kind  string `json:"kind"`             // none | cut | field | rand | badframe
+	N     int    `json:"n,omitempty"`      // cut: payload bytes kept (payload = everything after the type byte; the id is its first 4 bytes)
+	Off   int    `json:"off,omitempty"`    // field: offset of the word within the frame
+	Field string `json:"field,omitempty"`  // field: name
+	Val   uint32 `json:"val,omitempty"`    // field: new value
+	Seed  int64  `json:"seed,omitempty"`   // rand
+	Len   int    `json:"len,omitempty"`    // rand: payload bytes after the id
+	Typ   byte   `json:"typ,omitempty"`    // rand: type byte
 	BadID bool   `json:"bad_id,omitempty"` // rand: PRNG id as well
-	How   string `json:"how,omitempty"`   // badframe: len0 | toolong | inflated-eof
-	W     int    `json:"w,omitempty"`     // value: width of the word in bytes (4 or 8)
-	V64   string `json:"v64,omitempty"`   // value: new value, hexadecimal (0x…)
-	VName string `json:"vname,omitempty"` // value: what boundary the value is (2^63, 2^64-maxpacket, …)
-	Err   string `json:"errv,omitempty"`  // cuterr: the error value the transport returns after the cut (cliErrKinds; "eof" = plain io.EOF)
+	How   string `json:"how,omitempty"`    // badframe: len0 | toolong | inflated-eof; trail: what the trailing bytes are (zero | ff | prng | reply | body)
+	W     int    `json:"w,omitempty"`      // value: width of the word in bytes (4 or 8)
+	V64   string `json:"v64,omitempty"`    // value: new value, hexadecimal (0x…)
+	VName string `json:"vname,omitempty"`  // value: what boundary the value is (2^63, 2^64-maxpacket, …)
+	Err   string `json:"errv,omitempty"`   // cuterr: the error value the transport returns after the cut (cliErrKinds; "eof" = plain io.EOF)
 }
 
 type c20Case struct {
@@ -68,19 +68,19 @@ type c20Fail struct {
 }
 
 type c20Res struct {
-	Reached  bool      `json:"reached"` // the targeted reply was requested and the malformed frame sent
-	Outcome  string    `json:"outcome"` // value | error | hang
-	Summary  string    `json:"summary,omitempty"`
-	Err      string    `json:"err,omitempty"`
-	After    string    `json:"after"` // usable | failed-clean | …
-	Alloc    uint64    `json:"alloc"`
-	Recv     int       `json:"recv"`
-	Sent     string    `json:"sent,omitempty"` // hex of the malformed frame as sent
-	ReqTyp   int       `json:"req_typ,omitempty"`
-	Replies  []string  `json:"replies,omitempty"` // dry run: valid reply frames of the measured operation, arrival order
-	ReqTyps  []int     `json:"req_typs,omitempty"`
-	Fails    []c20Fail `json:"fails,omitempty"`
-	ExitNow  bool      `json:"-"`
+	Reached bool      `json:"reached"` // the targeted reply was requested and the malformed frame sent
+	Outcome string    `json:"outcome"` // value | error | hang
+	Summary string    `json:"summary,omitempty"`
+	Err     string    `json:"err,omitempty"`
+	After   string    `json:"after"` // usable | failed-clean | …
+	Alloc   uint64    `json:"alloc"`
+	Recv    int       `json:"recv"`
+	Sent    string    `json:"sent,omitempty"` // hex of the malformed frame as sent
+	ReqTyp  int       `json:"req_typ,omitempty"`
+	Replies []string  `json:"replies,omitempty"` // dry run: valid reply frames of the measured operation, arrival order
+	ReqTyps []int     `json:"req_typs,omitempty"`
+	Fails   []c20Fail `json:"fails,omitempty"`
+	ExitNow bool      `json:"-"`
 }
 
 // c20Base builds a well-formed reply of another kind carrying id.
@@ -159,6 +159,13 @@ func c20ApplyReq(m c20Mut, valid []byte, req *wire.Pkt) (out []byte, cutAfter bo
 			}
 		}
 		return b[:n], true, ferr
+	case "trail":
+		// a complete, well-formed reply FOLLOWED by trailing bytes inside the same frame (the length word covers them)
+		b := valid
+		if m.Base != "valid" && m.Base != "" {
+			b = c20Base(m.Base, binary.BigEndian.Uint32(valid[5:9]))
+		}
+		return wire.Frame(b[4], append(append([]byte(nil), b[5:]...), c20TrailBytes(m, b)...)), false, nil
 	case "over":
 		// a well-formed DATA reply carrying N bytes more than the READ asked for
 		if req != nil && req.Typ == wire.Read {
@@ -235,6 +242,8 @@ func (m c20Mut) String() string {
 		return fmt.Sprintf("%s/stream-cut@%d/%s", m.Base, m.N, m.Err)
 	case "over":
 		return fmt.Sprintf("data-over+%d", m.N)
+	case "trail":
+		return fmt.Sprintf("%s/trail+%d/%s", m.Base, m.N, m.How)
 	}
 	return m.Base + "/" + m.Kind
 }
@@ -574,7 +583,7 @@ func c20Generate(c *lib.Ctx, pairs []c20Pair, dry map[string]c20Res) []c20Case {
 					vals := []uint32{0, f.Val - 1, f.Val + 1, 1<<31 - 1, 1<<32 - 1, 1 << 29, 1<<29 + 1, 1 << 31} // incl. counts whose product with an element size wraps around 2^32
 					if thorough {
 						// boundaries of the sizes in play: MaxPacket 16, pool buffers, the 256 KiB frame limit, sign bits
-						vals = append(vals, 1, 2, 3, 4, 8, 15, 16, 17, 32, 255, 256, 65535, 65536, 1<<18 - 1, 1 << 18, 1<<18 + 1, 1 << 24, 1 << 31, 1<<31 + 1, 1<<32 - 2)
+						vals = append(vals, 1, 2, 3, 4, 8, 15, 16, 17, 32, 255, 256, 65535, 65536, 1<<18-1, 1<<18, 1<<18+1, 1<<24, 1<<31, 1<<31+1, 1<<32-2)
 					}
 					if !full {
 						vals = []uint32{0, f.Val + 1, 1<<32 - 1}
@@ -609,7 +618,7 @@ func c20Generate(c *lib.Ctx, pairs []c20Pair, dry map[string]c20Res) []c20Case {
 
 func checkC20(c *lib.Ctx) {
 	r := c.R
-	r.Rule = "for each of the client operations of cmd/vh/cli_ops.go (Client and File API incl. Walk, Glob, ReadDirContext over several batches, RemoveAll and MkdirAll over a tree, ReadFrom with every reader interface, ReadFromWithConcurrency; single- and multi-chunk, sequential and concurrent paths; 40-byte file, MaxPacket 16), each option variant of the operation (every operation: MaxPacketUnchecked, MaxPacketChecked, the MaxPacket alias, UseFstat(true) — the last three at reduced density, thorough: quick density; transfers also: UseFstat on/off, UseConcurrentReads false/true, UseConcurrentWrites true/false, MaxConcurrentRequestsPerFile 1/2 and combinations, at full density) and each reply of the operation: the valid reply (from a fake server) cut to every payload length 0…n-1 with a consistent frame length; every length/count/attribute-flags word set to 0, n-1, n+1, 2^31-1, 2^32-1 (flags: |EXTENDED, all ones); every other reply kind (3 STATUS shapes, HANDLE, DATA, NAME x1, NAME x2, ATTRS, EXTENDED_REPLY, VERSION, type 99) with the right id, themselves cut (thorough: every length; quick: 0…8, middle, n-1) and field-edited; PRNG payloads with PRNG type (some with a PRNG id); ill-framed packets (length 0, length > 256 KiB, inflated length then EOF). Further families (c20_more.go): VALUE — well-formed replies whose value words (ATTRS size, uid, gid, permissions, atime, mtime, also inside every NAME entry; the eleven statvfs numbers; the status code) are set to 0, 1, 2^31-1, 2^31, 2^32-1, 2^32, 2^53+1, 2^62, 2^63-1, 2^63, 2^63+1, 2^64-2^15, 2^64-2, 2^64-1, the values around 2^64-k*p, 2^63±p, 64*p, p for both packet sizes p in play (16 and the default 32768), PRNG values with the top bit set and clear; permission words also every file type; for every operation that receives the reply, under every option variant, plus the multi-step value operations of cliValueOps (Seek(End) then Read / Write / WriteTo / ReadFrom; Stat then Truncate(size); ReadFrom from readers announcing MaxInt64, MinInt64, -1) and the transfers on a Client without any MaxPacket option; sizes 2^63, 2^64-2^15, 2^64-1 are in every tier for every pair; every FileInfo / *FileStat / *StatVFS returned is looked at through all its accessors under recover. STREAM CUT — the reply stream cut after N bytes of a reply (quick: first reply of the default variant: every N for frames <= 64 bytes, else 0..13, middle, every 7th, n-1, n; all other replies and variants: 4, 5, 9 and one rotating position; thorough: every N) and then failing with an error value of the table cliErrKinds (io.EOF plain / wrapped / Is-method / joined, io.ErrUnexpectedEOF, io.ErrClosedPipe, os.ErrClosed, net.ErrClosed, deadlines, EPIPE, ECONNRESET, opaque) — exactly after the length word: always a non-EOF value and a rotating one (first reply of the default variant and thorough: every value). OVER — every READ answered with a well-formed DATA reply carrying 1, 9, 16 (one chunk), 200000 bytes more than requested (thorough: also 2, 15, 17, 255, 4096, 32768, 65536 and the largest frame the client accepts -1/0/+1). Each case is one fresh Client in a child process (one case at a time; a dead child is re-run alone). Non-trivial = every case whose reply differs from the valid one; distinct by (operation, option variant, reply index, mutation)."
+	r.Rule = "for each of the client operations of cmd/vh/cli_ops.go (Client and File API incl. Walk, Glob, ReadDirContext over several batches, RemoveAll and MkdirAll over a tree, ReadFrom with every reader interface, ReadFromWithConcurrency; single- and multi-chunk, sequential and concurrent paths; 40-byte file, MaxPacket 16), each option variant of the operation (every operation: MaxPacketUnchecked, MaxPacketChecked, the MaxPacket alias, UseFstat(true) — the last three at reduced density, thorough: quick density; transfers also: UseFstat on/off, UseConcurrentReads false/true, UseConcurrentWrites true/false, MaxConcurrentRequestsPerFile 1/2 and combinations, at full density) and each reply of the operation: the valid reply (from a fake server) cut to every payload length 0…n-1 with a consistent frame length; every length/count/attribute-flags word set to 0, n-1, n+1, 2^31-1, 2^32-1 (flags: |EXTENDED, all ones); every other reply kind (3 STATUS shapes, HANDLE, DATA, NAME x1, NAME x2, ATTRS, EXTENDED_REPLY, VERSION, type 99) with the right id, themselves cut (thorough: every length; quick: 0…8, middle, n-1) and field-edited; PRNG payloads with PRNG type (some with a PRNG id); ill-framed packets (length 0, length > 256 KiB, inflated length then EOF). Further families (c20_more.go): VALUE — well-formed replies whose value words (ATTRS size, uid, gid, permissions, atime, mtime, also inside every NAME entry; the eleven statvfs numbers; the status code) are set to 0, 1, 2^31-1, 2^31, 2^32-1, 2^32, 2^53+1, 2^62, 2^63-1, 2^63, 2^63+1, 2^64-2^15, 2^64-2, 2^64-1, the values around 2^64-k*p, 2^63±p, 64*p, p for both packet sizes p in play (16 and the default 32768), PRNG values with the top bit set and clear; permission words also every file type; for every operation that receives the reply, under every option variant, plus the multi-step value operations of cliValueOps (Seek(End) then Read / Write / WriteTo / ReadFrom; Stat then Truncate(size); ReadFrom from readers announcing MaxInt64, MinInt64, -1) and the transfers on a Client without any MaxPacket option; sizes 2^63, 2^64-2^15, 2^64-1 are in every tier for every pair; every FileInfo / *FileStat / *StatVFS returned is looked at through all its accessors under recover. STREAM CUT — the reply stream cut after N bytes of a reply (quick: first reply of the default variant: every N for frames <= 64 bytes, else 0..13, middle, every 7th, n-1, n; all other replies and variants: 4, 5, 9 and one rotating position; thorough: every N) and then failing with an error value of the table cliErrKinds (io.EOF plain / wrapped / Is-method / joined, io.ErrUnexpectedEOF, io.ErrClosedPipe, os.ErrClosed, net.ErrClosed, deadlines, EPIPE, ECONNRESET, opaque) — exactly after the length word: always a non-EOF value and a rotating one (first reply of the default variant and thorough: every value). OVER — every READ answered with a well-formed DATA reply carrying 1, 9, 16 (one chunk), 200000 bytes more than requested (thorough: also 2, 15, 17, 255, 4096, 32768, 65536 and the largest frame the client accepts -1/0/+1). TRAILING BYTES — replies LONGER than their content: every reply of every operation, and every substituted reply kind (STATUS x3, HANDLE, DATA, NAME x1/x2, ATTRS, EXTENDED_REPLY, VERSION, type 99), complete and well-formed, followed INSIDE the same frame (the length word covers them) by 1, 7, 8 (one more word), 13, 800 bytes of zeros / 0xff / PRNG (rotating; thorough: all three, and 2, 3, 4, 5, 9, 12, 16, 24, 92, 255, 256, 4096, 32768, 200000 bytes with a rotating content), by a whole second reply (length word, type, id, body) or by the body once more; universal option variants: the valid reply in full, three rotating kinds with 8, one rotating size and a second reply. Each case is one fresh Client in a child process (one case at a time; a dead child is re-run alone). Non-trivial = every case whose reply differs from the valid one; distinct by (operation, option variant, reply index, mutation)."
 	workers := runtime.NumCPU()
 	if workers > 16 {
 		workers = 16
@@ -669,6 +678,7 @@ func checkC20(c *lib.Ctx) {
 		// budget, and nothing else is waiting behind it
 		cases = append(cases, c20GenCut(c, pairs, dry)...)
 		cases = append(cases, c20GenOver(c, pairs, dry)...)
+		cases = append(cases, c20GenTrail(c, pairs, dry)...)
 		cases = append(cases, c20GenValue(c, pairs, dry)...)
 	}
 	selftest := -1
@@ -749,6 +759,10 @@ func checkC20(c *lib.Ctx) {
 			}
 		case "over":
 			r.Hist("data-over/+" + fmt.Sprint(cs.Mut.N))
+		case "trail":
+			r.Hist("trailing-bytes/+" + c20TrailBucket(cs.Mut))
+			r.Hist("trailing-bytes-content/" + cs.Mut.How)
+			r.Hist("trailing-bytes-after/" + cs.Mut.Base)
 		}
 		if d := deaths[i]; d != nil {
 			key := c20Key(d, cs.Op)
